@@ -78,7 +78,6 @@ Definition field_strict (C : cfg) (S : schema) (nested : bool) (tn : string) (f 
            (negb (fn_cond f) || negb (is_nonnull t)) &&
            match lookup_type S (base_name t) with
            | Some DScalar => configured C (base_name t)
-           | Some (DInterface _ _) => false   (* the Literal of the base class contains the interface's own name *)
            | _ => true
            end
        | Err _ => false
@@ -86,10 +85,19 @@ Definition field_strict (C : cfg) (S : schema) (nested : bool) (tn : string) (f 
 
 (* the strictness guard of a composite field's sub-selection: at a union position it must hold for every
    member type *)
-Definition strict_sub (strict : string -> list sel -> bool) (S : schema) (base : string) (sub : list sel)
-  : bool :=
+Definition strict_sub (okb : string -> list sel -> bool) (strict : string -> list sel -> bool)
+           (S : schema) (base : string) (sub : list sel) : bool :=
   match lookup_type S base with
   | Some (DUnion ms) => forallb (fun m => strict m sub) ms
+  | Some (DInterface _ _) =>
+      (* every type condition names the interface or one of its possible types (F4), every possible type
+         has its own variant class, and the interface itself — whose name the base class's Literal
+         admits as __typename (F8) — is in the sub-language as a runtime type too *)
+      let names := abs_names S base sub in
+      forallb (fun t => String.eqb t base || mem t (possible_types S base)) names &&
+      forallb (fun s => mem s names) (possible_types S base) &&
+      okb base sub && strict base sub &&
+      forallb (fun s => strict s sub) (possible_types S base)
   | _ => strict base sub
   end.
 
@@ -103,7 +111,8 @@ Fixpoint sels_strict (fuel : nat) (C : cfg) (S : schema) (frs : list fragdef) (n
           forallb (fun f =>
             field_strict C S nested tn f &&
             match fn_sub f, schema_field_type S tn (fn_name f) with
-            | Some sub, Ok t => strict_sub (sels_strict g C S frs true) S (base_name t) sub
+            | Some sub, Ok t => strict_sub (fun b sb => sels_ok g true C S frs true b b sb)
+                                           (sels_strict g C S frs true) S (base_name t) sub
             | _, _ => true
             end) fns
       | None => false
@@ -204,6 +213,8 @@ Section LevelS.
   Variable W : ann -> json -> bool.
   (* ok / strict: the guards required of nested selection sets *)
   Variable ok : bool -> string -> string -> list sel -> bool.
+  (* ok2: the same guard as computed inside the strictness guard (for the interface's own name) *)
+  Variable ok2 : bool -> string -> string -> list sel -> bool.
   Variable strict : string -> list sel -> bool.
   Hypothesis W_opt : forall a j, W (AOpt a) j = is_null j || W a j.
   Hypothesis W_list : forall a j, W (AList a) j = match j with JArr l => forallb (W a) l | _ => false end.
@@ -224,7 +235,8 @@ Section LevelS.
   Hypothesis fuel_pos : exists f2, fuel' = Datatypes.S f2.
   Hypothesis W_class : forall pub cn2 tn2 sels2 at2 out2 pub2 kv,
       parse_type_def fuel' C S frs pub cn2 tn2 sels2 at2 [] (Some [tn2]) = Ok (out2, pub2, false) ->
-      ok at2 tn2 tn2 sels2 = true -> strict tn2 sels2 = true -> (at2 = true -> has_typename sels2 = true) ->
+      (ok at2 tn2 tn2 sels2 = true \/ ok2 at2 tn2 tn2 sels2 = true) -> strict tn2 sels2 = true ->
+      (at2 = true -> has_typename sels2 = true) ->
       table_ok cs out2 -> W (AClass cn2) (JObj kv) = true ->
       ev (fun fc => obj_lconf fc S frs tn2 sels2 kv).
 
@@ -235,7 +247,7 @@ Section LevelS.
 
   Definition sub_strict (tn : string) (f : fnode) : bool :=
     match fn_sub f, schema_field_type S tn (fn_name f) with
-    | Some sub, Ok t => strict_sub strict S (base_name t) sub
+    | Some sub, Ok t => strict_sub (fun b sb => ok2 true b b sb) strict S (base_name t) sub
     | _, _ => true
     end.
 
@@ -286,6 +298,14 @@ Section LevelS.
         - unfold object_ann in Hleaf. simpl in Hleaf. inversion Hleaf; subst x.
           destruct (W (AClass sc) JNull) eqn:E; [| reflexivity].
           apply W_class_obj in E. destruct E as [kv E]. discriminate E.
+        - (* interface *)
+          destruct (interface_ann S frs fuel' (Some sub) (base_name t) false sc false) as [[xa xc]|] eqn:Ei;
+            [| discriminate Hleaf].
+          inversion Hleaf; subst x.
+          destruct (W xa JNull) eqn:E; [| reflexivity].
+          destruct (interface_ann_shape _ _ _ _ _ _ _ _ _ Ei) as [[c0 Ec] | [alts Ec]]; subst xa.
+          + apply W_class_obj in E. destruct E as [kv E]. discriminate E.
+          + apply W_uni in E. destruct E as [kv [s0 [c0 [E _]]]]. discriminate E.
         - (* union *)
           destruct (fold_left _ ms _) as [r1|] eqn:Efold; simpl in Hleaf; [| discriminate Hleaf].
           inversion Hleaf; subst x.
@@ -325,6 +345,68 @@ Section LevelS.
         apply ev_shift in He. destruct He as [a Ha]. exists a. intros [|k] Hk; [specialize (Ha 0 Hk); discriminate|].
         specialize (Ha _ Hk). cbn [conf_val_gen]. rewrite El.
         unfold sub_scopes. simpl. rewrite Esub. simpl. rewrite andb_false_r. exact Ha.
+      + (* interface, every possible type with its own variant: the discriminator names the interface itself
+           (F8) or a possible type, whose class validated the object *)
+        set (base := base_name t) in *.
+        destruct fuel_pos as [f2 Ef].
+        unfold abs_ok in Hok.
+        apply andb_true_iff in Hok as [Hok Hall]. apply andb_true_iff in Hok as [Hok Hun].
+        apply andb_true_iff in Hok as [Hok Hnb]. apply andb_true_iff in Hok as [Hok Hsome].
+        apply andb_true_iff in Hok as [Hok Hns]. apply andb_true_iff in Hok as [_ Hht].
+        assert (Hna : named_ann C S frs fuel' (Some sub) base false sc false = Ok (x, snd r)).
+        { unfold named_ann. rewrite El. rewrite Hctx in Hleaf. inversion Hleaf; subst a1. exact Hctx. }
+        unfold strict_sub in Hss. rewrite El in Hss. fold base in Hss.
+        apply andb_true_iff in Hss as [Hss Hsp]. apply andb_true_iff in Hss as [Hss Hsb].
+        apply andb_true_iff in Hss as [Hss Hokb]. apply andb_true_iff in Hss as [Hnames_ok Hallv].
+        set (names := abs_names S base sub) in *.
+        pose proof Hna as Hna'. rewrite Ef in Hna'.
+        apply parse_subs_inv in Hsub. destruct Hsub as [[Hn _] | [sub' [Hs Hrun]]]; [congruence|].
+        rewrite Esub in Hs. inversion Hs; subst sub'; clear Hs.
+        assert (Hcand : forall t0, t0 = base \/ In t0 (possible_types S base) ->
+                                   In t0 (abs_candidates true S base)).
+        { intros t0 H. unfold abs_candidates. rewrite El. simpl. destruct H; auto. }
+        (* the class of a related type t0 validated the object => lax conformance for runtime type t0 *)
+        assert (Hfin : forall kv' cn0 t0, In {| r_class := cn0; r_type := t0 |} (x_related (snd r)) ->
+                  x_abstract (snd r) = true ->
+                  typename_values S (x_related (snd r)) t0 = [t0] ->
+                  t0 = base \/ In t0 (possible_types S base) ->
+                  W (AClass cn0) (JObj kv') = true ->
+                  ev (fun fc => conf_val_gen lax_leaf false true fc S frs (TNamed base)
+                                             (sub_scopes [node_of_fnode false f]) (JObj kv'))).
+        { intros kv' cn0 t0 Hrc Hab Htv0 Ht0 Hwc.
+          destruct (subs_run_each _ _ _ _ _ _ _ _ _ _ Hrun eq_refl _ Hrc) as [pa [qc [qp [Hq Hi]]]].
+          simpl in Hq. rewrite Hab, Emix, Htv0 in Hq.
+          assert (Hokt : ok true t0 t0 sub = true \/ ok2 true t0 t0 sub = true).
+          { destruct Ht0 as [E | Hin]; [subst t0; right; exact Hokb | left].
+            rewrite forallb_forall in Hall, Hallv. destruct (andb_prop _ _ (Hall t0 Hin)) as [_ Hv].
+            fold names in Hv. unfold variant in Hv. rewrite (Hallv t0 Hin) in Hv. exact Hv. }
+          assert (Hstt : strict t0 sub = true).
+          { destruct Ht0 as [E | Hin]; [subst t0; exact Hsb|]. rewrite forallb_forall in Hsp. apply Hsp, Hin. }
+          assert (He : ev (fun fc => obj_lconf fc S frs t0 sub kv')).
+          { eapply (W_class pa cn0 t0 sub true); eauto. eapply table_ok_incl; eauto. }
+          apply ev_shift in He. destruct He as [a Ha]. exists a. intros [|k] Hk; [specialize (Ha 0 Hk); discriminate|].
+          specialize (Ha _ Hk). cbn [conf_val_gen]. rewrite El. apply existsb_exists. exists t0.
+          split; [apply Hcand, Ht0|].
+          unfold sub_scopes. simpl. rewrite Esub. simpl. rewrite andb_false_r. exact Ha. }
+        destruct (named_ann_interface _ _ _ _ _ _ _ _ _ _ _ El (no_spread_top _ _ Hns) Hsome Hna')
+          as [Hab [[Hi [Hx Hrl]] | [Hi [Hx Hrl]]]]; subst x.
+        * (* no fragment: one class for the interface itself *)
+          destruct (W_class_obj _ _ Hwx) as [kv' Ej]. subst j'.
+          assert (En : names = [base]) by (unfold names, abs_names; rewrite El, Hi; reflexivity).
+          eapply (Hfin kv' sc base); eauto.
+          -- rewrite Hrl. left. reflexivity.
+          -- eapply tv_interface_singleton; eauto. rewrite Hrl. fold names. rewrite En. reflexivity.
+        * destruct (W_uni _ _ Hwx) as [kv' [s0 [c0 [Ej [Hjl [Hpick Hwc]]]]]]. subst j'.
+          unfold union_pick in Hpick. apply find_some in Hpick. destruct Hpick as [Hin Hpred].
+          apply in_map_iff in Hin. destruct Hin as [t0 [Ec0 Ht0]]. inversion Ec0; subst c0. clear Ec0.
+          fold names in Ht0, Hrl.
+          assert (Hrc : In (rel_of sc t0) (x_related (snd r))) by (rewrite Hrl; apply in_map, Ht0).
+          assert (Htv0 : typename_values S (x_related (snd r)) t0 = [t0]).
+          { eapply tv_interface_singleton; eauto. rewrite Hrl, map_map. simpl. apply map_id. }
+          assert (Ht0' : t0 = base \/ In t0 (possible_types S base)).
+          { rewrite forallb_forall in Hnames_ok. specialize (Hnames_ok t0 Ht0).
+            apply orb_true_iff in Hnames_ok as [E | E]; [left; apply String.eqb_eq, E | right; apply mem_In, E]. }
+          eapply (Hfin kv' (sc +++ t0) t0); eauto.
       + (* union: the discriminator names a member, whose class validated the object *)
         set (base := base_name t) in *.
         destruct fuel_pos as [f2 Ef].
@@ -534,7 +616,7 @@ Proof.
     set (Wc := covers (Datatypes.S n1) cs) in *.
     assert (HF : Forall2 (field_facts_rev C S frs (fun a j => Wa a j && Wc a j) tn) fns pfl).
     { eapply level_facts_rev with (W := fun a j => Wa a j && Wc a j) (mro := mro_fields n1 cs)
-                                  (ok := sels_ok g' true C S frs) (strict := sels_strict gs' C S frs true)
+                                  (ok := sels_ok g' true C S frs) (ok2 := sels_ok gs' true C S frs) (strict := sels_strict gs' C S frs true)
                                   (fuel' := fuel) (g := g') (cs := cs); try eassumption.
       - intros a j. unfold Wa, Wc. simpl. destruct (is_null j); reflexivity.
       - intros a j. unfold Wa, Wc. simpl. destruct j; try reflexivity. apply forallb_andb.
@@ -552,7 +634,7 @@ Proof.
       - intros c fs Hlc Hnc Hbc Hm. eapply mro_some_simple; eauto.
       - eauto.
       - intros pb cn2 tn2 sels2 at2 out2 pub2 kv2 P1 P2 P3 P3' P4 P5. apply andb_true_iff in P5 as [P5 P6].
-        eapply IH; eauto.
+        destruct P2 as [P2 | P2]; eapply IH; eauto.
       - eapply table_ok_incl; [exact Htab|]. rewrite Hout. apply incl_tl, incl_refl. }
     destruct (level_strict C S frs tn Wa Wc kv _ _ HF Hkeys Hnames Hacc Hcov) as [Hkv Hspec].
     pose proof (ev_forallb (fun fc f => key_spec (lconf fc S frs) S tn kv f) _ Hspec) as [a Ha].
